@@ -116,4 +116,60 @@ theorem reject_canon_crc_uint (p : Primary) (hp : p.wf = true ∧ p.crc.wire = t
       rcases ht with rfl | rfl <;> simp [bind_apply, visitCrc, reqElem_succ, hrb])
   simpa using this
 
+/-! ### a string where an endpoint ID (an array) is required — whatever the string says -/
+
+/-- a text string in place of the EID array: rejected (type error, or UTF-8 error), its bytes consumed -/
+theorem readEid_text (t tail : Bytes) (ht : t.length < 18446744073709551616) (d : Nat) :
+    ∃ e, readEid ⟨encText t ++ tail, d⟩ = (.err e, ⟨tail, d⟩) := by
+  unfold readEid readSeq tagFuel encText
+  rw [List.append_assoc, parseWith_encHead _ 3 t.length 129 (by omega) ht]
+  simp only [headOf, kSeq]
+  by_cases hu : validUtf8 t = true
+  · exact ⟨.type, by simp [reject, takeN_append, hu]⟩
+  · exact ⟨.utf8, by simp [reject, takeN_append, hu]⟩
+
+/-- a byte string in place of the EID array -/
+theorem readEid_bytes (t tail : Bytes) (ht : t.length < 18446744073709551616) (d : Nat) :
+    readEid ⟨encBytes t ++ tail, d⟩ = (.err .type, ⟨tail, d⟩) := by
+  unfold readEid readSeq tagFuel encBytes
+  rw [List.append_assoc, parseWith_encHead _ 2 t.length 129 (by omega) ht]
+  simp [headOf, kSeq, reject, takeN_append]
+
+/-- **C19 (a string in place of the destination endpoint ID).** Text such as "dtn:none",
+    "dtn://node/svc" or "ipn:1.2" — any text or byte string at all — where the `[scheme, ssp]`
+    array belongs is never answered with a decoded bundle, whatever the rest of the block. -/
+theorem reject_primary_dst_string (p : Primary) (h : p.wf = true) (count : Nat) (hc : count < 24) (hc4 : 4 ≤ count)
+    (t : Bytes) (ht : t.length < 18446744073709551616) (asText : Bool) (tail : Bytes) :
+    ∃ e, decodeBundle ([0x9f] ++ (encArrayHead count ++
+        (encUint p.version ++ (encUint p.flags ++ (encUint p.crc.toCode ++
+          ((if asText then encText t else encBytes t) ++ tail)))))) = .err e := by
+  simp only [Primary.wf, Bool.and_eq_true, U64_eq, U32_eq] at h
+  obtain ⟨⟨⟨⟨⟨⟨⟨⟨⟨⟨⟨hver, hfl⟩, hk⟩, _⟩, _⟩, _⟩, _⟩, _⟩, _⟩, _⟩, _⟩, _⟩ := h
+  have hver := of_decide_eq_true hver
+  have hfl := of_decide_eq_true hfl
+  have hcode : p.crc.toCode < 256 := by
+    cases hcr : p.crc <;> simp [hcr, CrcVal.known] at hk <;> simp [CrcVal.toCode]
+  obtain ⟨k, rfl⟩ : ∃ k, count = k + 4 := ⟨count - 4, by omega⟩
+  cases asText
+  · exact ⟨_, reject_of_visit_err (k + 4) hc _ _ _
+      (visitPrimary_dst_err p.version p.flags p.crc.toCode hver hfl hcode k _ _ _ (readEid_bytes t tail ht 126))⟩
+  · obtain ⟨e, he⟩ := readEid_text t tail ht 126
+    exact ⟨_, reject_of_visit_err (k + 4) hc _ _ _
+      (visitPrimary_dst_err p.version p.flags p.crc.toCode hver hfl hcode k _ _ _ he)⟩
+
+/-- the previous-node block: block-type-specific data that is a text string reading as an endpoint
+    URI (not the `[scheme, ssp]` array) does not decode -/
+theorem reject_prevnode_text (t : Bytes) (ht : t.length < 18446744073709551616) :
+    ∃ e, decodeBtsd PREVIOUS_NODE_BLOCK (encText t) = .err e := by
+  obtain ⟨e, he⟩ := readEid_text t [] ht 128
+  refine ⟨e, ?_⟩
+  have : fromSlice readEid (encText t) = .err e := by
+    unfold fromSlice
+    simp only [List.append_nil] at he
+    rw [he]
+  simp [decodeBtsd, PAYLOAD_BLOCK, BUNDLE_AGE_BLOCK, HOP_COUNT_BLOCK, PREVIOUS_NODE_BLOCK, this, Res.map]
+
+example : ∃ e, decodeBtsd PREVIOUS_NODE_BLOCK (encText [100, 116, 110, 58, 110, 111, 110, 101]) = .err e :=
+  reject_prevnode_text _ (by decide)
+
 end Bp7.C19
